@@ -63,9 +63,10 @@ BOUND = {
              "variable} x {logd, __call__} x 14-15 values (probe, +/- non-zero, 9 representations of zero incl. one-element "
              "and full-size zero arrays, False/None/empty), {unknown name, every other graph variable} surplus keyword x "
              "{keyword, positional} x values, extra positional x values; "
-             "nested: every (graph, kept variable) of the 11 graphs (41 cells) x stage-1 histories {all other variables in one "
-             "keyword step, one variable per keyword step in parameter order} x stage-2 shapes {A: (e,R), C: (R,h,e) with fresh "
-             "Gamma hyper-parameter h, D: (e,f,R) two data sets of sizes 2 and 3} x all stage-2 histories with the quick step modes",
+             "nested: every (graph, kept variable) of the 11 graphs (41 cells) x {(stage-1 history, stage-2 shape)}: shape A (e,R) on "
+             "both extreme stage-1 histories {all other variables in one keyword step; one variable per keyword step in parameter "
+             "order}, shape C (R,h,e) with a fresh Gamma hyper-parameter h on the one-step history, shape D (e,f,R) with two data "
+             "sets of sizes 2 and 3 on the one-variable-per-step history; x all stage-2 histories with the quick step modes",
     "thorough": "same 10 graphs x all 3 value catalogues; per step modes {every keyword order, positional prefix, "
                 "first-variable positional + rest keyword}; plus the 5-variable graph G10 x 3 catalogues with the "
                 "quick tier's step modes; the over-specification alphabet of the quick tier on every graph x catalogue; "
@@ -148,7 +149,7 @@ def cells(tier, seed):
 
 # stage-1 history sets x stage-2 shapes per tier (see _c01_nested.py); 5-variable graphs always use the quick plan
 NESTED_PLAN = {
-    "quick": [("extreme", ("A", "C", "D"))],
+    "quick": [("extreme", ("A",)), ("onestep", ("C",)), ("finest", ("D",))],
     "thorough": [("all", ("A",)), ("extreme", ("C", "D", "B"))],
 }
 
